@@ -118,7 +118,7 @@ type ChanObj struct {
 	Timer   bool // created by time.After / ticker
 	TimerD  *Term
 	Fired   bool
-	Ready   bool // one-shot readiness granted by FireTimers
+	Ready   bool  // one-shot readiness granted by FireTimers
 	At      *Term // symbolic clock mode: the instant at which the timer expires (clock at creation + duration)
 	AtVer   int   // clock version for which AtReady was decided (+1; 0 = never)
 	AtReady bool
